@@ -88,7 +88,16 @@ def gen_case(rng, tier, index):
         o = rng.choices(names, [weights[n] for n in names])[0]
         ops.append([o, rng.randrange(1 << 20), rng.randrange(1 << 20), rng.randint(0, 4)])
     payload = PAYLOADS[index % len(PAYLOADS)] if not long_case else rng.choice(["equal", "few", "equal"])
-    return {"payload": payload, "n0": n0, "ops": ops, "via_ctor": rng.random() < 0.5}
+    via_ctor = rng.random() < 0.5
+    if not long_case and index % 3 == 1:
+        # copies of the list in the middle of a history (drawn from a generator of their own: the histories above stay what
+        # they were): a deep copy / pickle of the list TOGETHER with the caller's node handles, and shallow copies of which
+        # one handle is dropped and collected
+        import random
+        r2 = random.Random(index * 7919 + 1)
+        for _ in range(r2.randint(1, 3)):
+            ops.insert(r2.randint(0, len(ops)), [r2.choice(["clone_with_handles", "shallow_copy_drop"]), r2.randrange(1 << 20), 0, 0])
+    return {"payload": payload, "n0": n0, "ops": ops, "via_ctor": via_ctor}
 
 
 def shrinkable(case):
@@ -384,6 +393,33 @@ def run_case(case, res):
                     if i != j:
                         del model[i]
                         model.insert(_index_is(model, after) + 1, node)
+                elif op == "clone_with_handles":
+                    import copy
+                    import pickle
+                    if n > 50:
+                        continue        # (the recursion depth of a deep copy grows with the length)
+                    use_pickle = a % 2 == 0 and kind in ("distinct", "equal", "few", "falsy", "none")
+                    desc = f"{'pickle round trip' if use_pickle else 'copy.deepcopy'} of (list, the caller's node handles); continuing with the copies"
+                    l2, model2 = pickle.loads(pickle.dumps((l, model))) if use_pickle else copy.deepcopy((l, model))
+                    if type(l2) is not type(l) or len(model2) != n:
+                        raise Violation("forward-sequence", f"{desc}: the copy is a {type(l2).__name__} with {len(model2)} handles", {})
+                    l, model = l2, model2
+                    payload_of = _Births()
+                    for m in model:
+                        payload_of[id(m)] = m.data
+                    res.count("copies_with_node_handles_continued_with")
+                elif op == "shallow_copy_drop":
+                    import copy
+                    import gc
+                    l2 = copy.copy(l)
+                    if a % 2:
+                        desc = "copy.copy of the list taken, the original dropped and collected; continuing with the copy"
+                        l = l2
+                    else:
+                        desc = "copy.copy of the list taken, dropped and collected"
+                    l2 = None
+                    gc.collect()
+                    res.count("shallow_copies_with_one_handle_dropped")
                 elif op in ("rotate_fb", "rotate_bf"):
                     desc = f"rotate(front_to_back={op == 'rotate_fb'})"
                     l.rotate(front_to_back=(op == "rotate_fb"))
